@@ -62,8 +62,19 @@ ADD5 = {
 }
 for _k, _v in ADD5.items():
     ADD4[_k] = ADD4.get(_k, "") + _v
+ADD7 = {
+ "C01": " Round 7: a filter / sort-key callable handed to a collection iterator keeps nothing from one element to the next (HO.stateful-callback: no write into captured state, directly or through a package function that writes into its parameter).",
+ "C06": " Round 7: a vehicle written back with a new position -- by move() or by a helper that commits its parameter -- carries the odometer tick too.",
+ "C11": " Round 7: rows reach the stepper in file order also through a new constructor; the fold of the rows read in a step reaches _map_to_station_ids whole, and a step that read price rows ends without applying any only when they folded to nothing.",
+ "C12": " Round 7: writer/reader agreement of valid_dispatch_states (the loader folds configured names by lower / strip / separator removal only; the dispatcher compares the lower-cased class name).",
+ "C16": " Round 7: a one-shot iterator stored in a state record through a local is reported.",
+ "C19": " Round 7: an advanced odometer committed inside a helper move() hands the vehicle to is reported once, too.",
+}
+for _k, _v in ADD7.items():
+    ADD4[_k] = ADD4.get(_k, "") + _v
 TRUST = TRUST + (" Since round 4 the loader canonicalises spellings before analysis (hivecheck/canon.py: argument style of the pinned tree, walrus, chained _replace, library forms, moved functions put back) "
-                 "and the path enumerator splices the paths of functions the pinned tree does not have into their callers; both are behaviour-preserving by construction and part of the trusted base.")
+                 "and the path enumerator splices the paths of functions the pinned tree does not have into their callers; both are behaviour-preserving by construction and part of the trusted base."
+                 " Round 7 adds to that base: pinned names of locals restored by binding-site signatures (localsback.py), package-wide inlining of new single-expression members, assertions read as non-branches.")
 
 NA_REASON = "check not built yet in this round (DESIGN.md section 4 describes the planned static clauses); not claimed until built and validated both ways"
 
